@@ -3,6 +3,7 @@ import Qhttp.Props.C01
 import Qhttp.Lemmas.RouteSubst
 import Qhttp.Lemmas.RouteLemmas
 import Qhttp.Lemmas.RouteWire
+import Qhttp.Lemmas.RouteSoft
 /-
   C05 — routing picks exactly one action, in the documented order.
 -/
@@ -855,6 +856,53 @@ example : holds envX scNoRoot (Scenario.run envX scNoRoot.scenario).log = true :
 /-- … and it does reject a wrong history: the same run with the response bytes removed -/
 example : holds envX (scEx true)
     ((Scenario.run envX (scEx true).scenario).log.filter fun o => !Obs.isW o) = false := by decide +kernel
+end Ex
+
+/-! ### the `soft` scenarios: a refusing middleware answers itself and leaves the connection open -/
+
+/-- **C05.5 for soft refusals (`holds_run_soft`)**: the same predicate, under the same hypothesis as
+    `holds_run`, on the run of `RouteScn.softScenario`.  Without a refusal the soft scenario is the
+    ordinary one (`RouteSoftL.softScenario_eq`); with a refusal there is no terminal action, which
+    is C06's business. -/
+theorem holds_run_soft (env : Env) (sc : RouteScn)
+    (hmf : ∀ r, sc.root = some r → routeMF sc.matcher r (sc.p16.drop 1) = true) :
+    holds env sc (Scenario.run env sc.softScenario).log = true := by
+  cases hroot : sc.root with
+  | none =>
+    rw [RouteSoftL.softScenario_eq_of_noRoot sc hroot]
+    exact holds_run env sc hmf
+  | some r =>
+    obtain ⟨pre, hpre, ⟨t, ht, hr, _⟩ | ⟨id, hr, _⟩⟩ := route_cases sc.matcher r (sc.p16.drop 1)
+    · rw [RouteSoftL.softScenario_eq_of_terminal sc hroot hpre ht hr]
+      exact holds_run env sc hmf
+    · unfold holds
+      cases hacc : accepted env sc with
+      | false => rfl
+      | true =>
+        have hacts : sc.acts = some (route sc.matcher r (sc.p16.drop 1)) := by
+          simp [RouteScn.acts, serverRoute, hroot]
+        have e : pre.map mwAct ++ [Act.mw id false] = (pre ++ [(id, false)]).map mwAct := by simp [mwAct]
+        simp only [Bool.not_true, Bool.false_eq_true, if_false, hroot, hacts]
+        rw [hr, e, terminal_map_mwAct]
+
+theorem holds_run_soft_of_plain (env : Env) (sc : RouteScn) (hm : PlainMatcher sc.matcher)
+    (ht : ∀ r, sc.root = some r → treeSeparated r = true) :
+    holds env sc (Scenario.run env sc.softScenario).log = true :=
+  holds_run_soft env sc fun r hr => routeMF_of_plain hm r _ (ht r hr)
+
+namespace Ex
+/-- GET /x on a root whose only middleware (7) refuses -/
+def scSoft : RouteScn :=
+  { root := some (.mk 0 [(7, false)] [] .nil true), matcher := toyM, raw := lit ['/','x'], p16 := [47, 120] }
+
+example : routeMF toyM (.mk 0 [(7, false)] [] .nil true) [120] = true := by decide
+example : accepted envX scSoft = true ∧
+    holds envX scSoft (Scenario.run envX scSoft.softScenario).log = true := by decide +kernel
+-- the soft run differs from the ordinary one: the refuser's own response, no close by the library
+example : Obs.countP Obs.isTc (Scenario.run envX scSoft.softScenario).log = 0 ∧
+    Obs.countP Obs.isTc (Scenario.run envX scSoft.scenario).log = 1 := by decide +kernel
+-- with accepting middleware the soft scenario is the ordinary one and `holds` is not trivial there
+example : holds envX scPr (Scenario.run envX scPr.softScenario).log = true := by decide +kernel
 end Ex
 
 end Qhttp.C05
